@@ -253,7 +253,12 @@ def shard_corpus(spec: Dict[str, Any], journal: Any, prop: str, configs: List[Di
         except flipjump.FlipJumpException:
             counters['corpus_not_assembled'] = counters.get('corpus_not_assembled', 0) + 1
             continue
-        reader = Reader(out)
+        try:
+            reader = Reader(out)
+        except flipjump.FlipJumpException as exc:
+            violations.append({'key': 'corpus/assembled-image-refused-by-reader', 'what': f'{row["files"]}: {str(exc)[:200]}',
+                               'replay': {'kind': 'corpus', 'row': row}})
+            continue
         stdin = Path(row['input']).read_bytes() if row['input'] else b''
         ref = RefMachine(row['w'], [(sg.segment_start, sg.segment_length) for sg in reader.memory_segments],
                          {k: v for k, v in reader.memory.items() if v}, stdin, track=False, ring_len=64)
